@@ -216,7 +216,7 @@ pub fn world_cfg_strategy(p: &CfgProfile) -> BoxedStrategy<WorldCfg> {
         None => prop_oneof![2 => Just(false), 1 => Just(true)].boxed(),
     };
     let six = p.six_decimals;
-    (native_s, sel(vec![9u8, 6]))
+    (native_s, sel(vec![9u8, 6, 9, 6, 8, 10]))
         .prop_flat_map(move |(native, dec)| {
             let decimals = if native || six { 6 } else { dec };
             let d = 10u128.pow(decimals as u32);
